@@ -147,6 +147,13 @@ type world struct {
 	signers map[int]*signersModel
 	// created contracts (address -> true) usable as call targets
 	contracts []common.Address
+
+	// confidential side
+	wallets   []*wallet
+	strangers []*wallet // key sets nothing is ever addressed to
+	outs      []*ownedOut
+	utxoNext  uint64          // next global output index (LKC)
+	honestUtx map[string]bool // wire bytes of ring-signed transactions built by an owner
 }
 
 type signersModel struct {
